@@ -207,10 +207,11 @@ func TestVerif_C13_e2eh3(t *testing.T) {
 	defer peer.close()
 	mk := func() *Client { return c13H3Client(t) }
 	base := "https://" + peer.ln.Addr().String()
-	flows := []string{"single", "single", "single", "retry", "redirect"}
+	flows := []string{"single", "single", "single", "retry", "redirect", "single", "head"}
 	features := []string{"", "", "", "1xx", "long", "many", "trailer", "empty-value"}
 	n := verifh.N(100, 2500)
 	reqAsync := verifh.N(2, 40)
+	flatSeq, fileBudget := 0, verifh.N(6, 80)
 	var pend []*c13Pending
 	for c := 0; c < n; c++ {
 		flow := flows[c%len(flows)]
@@ -221,6 +222,7 @@ func TestVerif_C13_e2eh3(t *testing.T) {
 			budget = new(int) // a pair belongs to one finding only: no request-level async where the HTTP/3 body dump is involved
 		}
 		cfg, level, subset := c13GenCfg(s, c, budget, sc)
+		c13GFlat(t, s, cnt, c, &flatSeq, &fileBudget, &cfg, sc)
 		timeout := 5 * time.Second
 		margin := 3 * time.Second
 		if cfg.rq != nil && cfg.rq.async {
@@ -260,7 +262,7 @@ func TestVerif_C13_e2eh3(t *testing.T) {
 		}
 	}
 	c13Finish(t, s, pend)
-	for _, must := range []string{"flow=retry", "flow=redirect", "feature=long", "feature=many", "feature=1xx", "level=both", "req-body-via-reader", "baseline-ok-h3"} {
+	for _, must := range []string{"flow=retry", "flow=redirect", "feature=long", "feature=many", "feature=1xx", "level=both", "req-body-via-reader", "req-body-via-multipart", "flow=head", "baseline-ok-h3", "via-each-request", "via-dump-all-to-file", "via-dump-to-file"} {
 		if cnt[must] == 0 {
 			t.Errorf("generator never reached bucket %q", must)
 		}
